@@ -96,6 +96,11 @@ fn build(case: &Case) -> RawRequest {
     let uid = case.upload_id.clone().unwrap_or_default();
     let euid = pct_encode(&uid, false);
     let mut r = match case.op.as_str() {
+        "DeleteBucket" => RawRequest::new("DELETE", &format!("/{b}")),
+        "HeadBucket" => RawRequest::new("HEAD", &format!("/{b}")),
+        "CreateBucket/existing" => RawRequest::new("PUT", &format!("/{b}")),
+        "GetBucketLocation" => RawRequest::new("GET", &format!("/{b}?location")),
+        "ListObjects/all" => RawRequest::new("GET", &format!("/{b}")),
         "GetObject" => RawRequest::new("GET", &format!("/{b}/{ek}")),
         "GetObject/range" => RawRequest::new("GET", &format!("/{b}/{ek}")).header("range", "bytes=0-9"),
         "HeadObject" => RawRequest::new("HEAD", &format!("/{b}/{ek}")),
@@ -394,8 +399,29 @@ pub fn run(ctx: &RunCtx) -> i32 {
             }
         }
     });
-    // second leg: the file system calls of the same operations (child processes under strace)
+    // bucket-level operations on each bucket (the names of two of them continue one another, in base64 too): whatever a
+    // DeleteBucket of a populated bucket does, it does it to that bucket and to its own side files
     let mut total = total;
+    {
+        let rt = new_runtime_real();
+        for b in BUCKETS {
+            for op in ["HeadBucket", "GetBucketLocation", "ListObjects/all", "CreateBucket/existing", "DeleteBucket"] {
+                let w = setup(&rt, "c17-bucket-ops");
+                if op == "DeleteBucket" {
+                    // once populated, once emptied through the API first
+                    judge(&rt, &mut total, &w, &Case { op: op.into(), bucket: b.into(), key: String::new(), key_class: "bucket-level/populated".into(), src: None, upload_id: None });
+                    let w = setup(&rt, "c17-bucket-ops");
+                    for k in ["obj1", "dir/obj2", "secret"] {
+                        let _ = call(&rt, &w, &RawRequest::new("DELETE", &format!("/{b}/{k}")).header("host", "h"));
+                    }
+                    judge(&rt, &mut total, &w, &Case { op: op.into(), bucket: b.into(), key: String::new(), key_class: "bucket-level/emptied".into(), src: None, upload_id: None });
+                } else {
+                    judge(&rt, &mut total, &w, &Case { op: op.into(), bucket: b.into(), key: String::new(), key_class: "bucket-level".into(), src: None, upload_id: None });
+                }
+            }
+        }
+    }
+    // second leg: the file system calls of the same operations (child processes under strace)
     match crate::monitor::c17sys::strace_file_works() {
         Err(e) => total.inconclusive(format!("syscall leg not run: {e}")),
         Ok(()) => {
